@@ -244,6 +244,7 @@ func (w *Writer) DeleteNode(x *skiplist.Node) (success bool) {
 		}
 	}()
 
+	verifYield(104, 0) // verif: DeleteNode entry
 	x.SetLink(nil)
 	sn := w.GetCurrSn()
 	gotItem := (*Item)(x.Item())
@@ -251,10 +252,12 @@ func (w *Writer) DeleteNode(x *skiplist.Node) (success bool) {
 		success = w.store.DeleteNode(x, w.insCmp, w.buf, &w.slSts1)
 
 		barrier := w.store.GetAccesBarrier()
+		verifYield(106, 0) // verif: DeleteNode before FlushSession
 		barrier.FlushSession(unsafe.Pointer(x))
 		return
 	}
 
+	verifYield(105, 0) // verif: DeleteNode before deadSn CAS
 	success = atomic.CompareAndSwapUint32(&gotItem.deadSn, 0, sn)
 	if success {
 		if w.gctail == nil {
@@ -567,6 +570,7 @@ func (s *Snapshot) Open() bool {
 	if atomic.LoadInt32(&s.refCount) == 0 {
 		return false
 	}
+	verifYield(101, uint64(s.sn)) // verif: Open between test and add
 	atomic.AddInt32(&s.refCount, 1)
 	return true
 }
@@ -576,7 +580,9 @@ func (s *Snapshot) Open() bool {
 // Close(). Internal garbage collector takes care of freeing the items.
 func (s *Snapshot) Close() {
 	newRefcount := atomic.AddInt32(&s.refCount, -1)
+	verifYield(102, uint64(s.sn)) // verif: Close after decrement
 	if newRefcount == 0 {
+		verifYield(103, uint64(s.sn)) // verif: Close retires the snapshot
 		buf := s.db.snapshots.MakeBuf()
 		defer s.db.snapshots.FreeBuf(buf)
 
@@ -708,6 +714,7 @@ func (m *Nitro) collectDead() {
 		}
 
 		atomic.StoreUint32(&m.lastGCSn, sn.sn)
+		verifYield(108, uint64(sn.sn)) // verif: collectDead before hand-off
 		m.gcchan <- sn.gclist
 		m.gcsnapshots.DeleteNode(node, CompareSnapshot, buf2, &m.gcsnapshots.Stats)
 	}
@@ -715,6 +722,7 @@ func (m *Nitro) collectDead() {
 
 // GC implements manual garbage collection of Nitro snapshots.
 func (m *Nitro) GC() {
+	verifYield(107, 0) // verif: GC before try-lock
 	if atomic.CompareAndSwapInt32(&m.isGCRunning, 0, 1) {
 		m.collectDead()
 		atomic.CompareAndSwapInt32(&m.isGCRunning, 1, 0)
@@ -911,12 +919,14 @@ func (m *Nitro) StoreToDisk(dir string, snap *Snapshot, concurr int, itmCallback
 	manifestdir := dir
 	datadir := filepath.Join(dir, "data")
 	os.MkdirAll(datadir, 0755)
+	verifYield(120, 0) // verif: after mkdir data
 	shards := runtime.NumCPU()
 
 	writers := make([]FileWriter, shards)
 	files := make([]string, shards)
 	checksums := make([]uint32, shards)
 	defer func() {
+		verifYield(124, 0) // verif: StoreToDisk returning, closing shard writers
 		for _, w := range writers {
 			if w != nil {
 				w.Close()
@@ -934,6 +944,7 @@ func (m *Nitro) StoreToDisk(dir string, snap *Snapshot, concurr int, itmCallback
 
 		writers[shard] = w
 		files[shard] = file
+		verifYield(121, uint64(shard)) // verif: shard file opened
 	}
 
 	// Initialize and setup delta processing
@@ -951,6 +962,7 @@ func (m *Nitro) StoreToDisk(dir string, snap *Snapshot, concurr int, itmCallback
 
 		deltadir := filepath.Join(dir, "delta")
 		os.MkdirAll(deltadir, 0755)
+		verifYield(120, 1) // verif: after mkdir delta
 		for id := 0; id < m.numWriters(); id++ {
 			dw := m.newFileWriter(m.fileType)
 			file := fmt.Sprintf("shard-%d", id)
@@ -960,6 +972,7 @@ func (m *Nitro) StoreToDisk(dir string, snap *Snapshot, concurr int, itmCallback
 			}
 			deltaWriters[id] = dw
 			deltaFiles[id] = file
+			verifYield(121, uint64(1000+id)) // verif: delta file opened
 		}
 
 		if err = m.changeDeltaWrState(dwStateInit, deltaWriters, snap); err != nil {
@@ -980,12 +993,14 @@ func (m *Nitro) StoreToDisk(dir string, snap *Snapshot, concurr int, itmCallback
 			if err = m.changeDeltaWrState(dwStateTerminate, nil, nil); err == nil {
 				bs, _ := json.Marshal(deltaFiles)
 				err = ioutil.WriteFile(filepath.Join(deltadir, "files.json"), bs, 0660)
+				verifYield(122, 3) // verif: delta files.json written
 				if err == nil {
 					for id, dwr := range deltaWriters {
 						deltaChecksums[id] = dwr.Checksum()
 					}
 					bs, _ = json.Marshal(deltaChecksums)
 					err = ioutil.WriteFile(filepath.Join(deltadir, "checksums.json"), bs, 0660)
+					verifYield(122, 4) // verif: delta checksums.json written
 				}
 			}
 		}()
@@ -1000,6 +1015,7 @@ func (m *Nitro) StoreToDisk(dir string, snap *Snapshot, concurr int, itmCallback
 		if err := w.WriteItem(itm); err != nil {
 			return err
 		}
+		verifYield(123, uint64(shard)) // verif: item written
 
 		if itmCallback != nil {
 			itmCallback(&ItemEntry{itm: itm, n: nil})
@@ -1010,15 +1026,18 @@ func (m *Nitro) StoreToDisk(dir string, snap *Snapshot, concurr int, itmCallback
 
 	manifest, _ := json.Marshal(map[string]interface{}{"version": version})
 	if err = ioutil.WriteFile(filepath.Join(manifestdir, "nitro.json"), manifest, 0660); err == nil {
+		verifYield(122, 0) // verif: nitro.json written
 		if err = m.Visitor(snap, visitorCallback, shards, concurr); err == nil {
 			bs, _ := json.Marshal(files)
 			err = ioutil.WriteFile(filepath.Join(datadir, "files.json"), bs, 0660)
+			verifYield(122, 1) // verif: files.json written
 			if err == nil {
 				for id, wr := range writers {
 					checksums[id] = wr.Checksum()
 				}
 				bs, _ = json.Marshal(checksums)
 				err = ioutil.WriteFile(filepath.Join(datadir, "checksums.json"), bs, 0660)
+				verifYield(122, 2) // verif: checksums.json written
 			}
 		}
 	}
